@@ -49,7 +49,8 @@ theorem n_le (a b : Nat) : Rust.le a b = decide (a ≤ b) := by
   simp [Nat.compare_eq_gt]
 
 theorem Bound_is_valid (b : Bound) : b.rs_is_valid = b.isValid := by
-  rcases b with (p | p) <;> cases p <;> simp [Bound.rs_is_valid, Bound.isValid, n_le]
+  rcases b with (p | p) <;> cases p <;>
+    simp [Bound.rs_is_valid, Bound.isValid, n_le, Rust.map_or, Rust.is_some_and, Rust.is_none_or, Rust.unwrap_or, Rust.map, RMap.map]
 
 /-- the version order is total: `a <= b` is `!(b < a)` (used when a test is written the other way round) -/
 theorem vle_not_vlt (a b : Version) : vle a b = !vlt b a := by
